@@ -118,3 +118,16 @@ def strip_inserts_equal(original, annotated, rules_inserts):
     for ins in rules_inserts:
         t = t.replace(ins, "", 1)
     return t == original
+
+
+def require_loop_count(text, fname, expected):
+    """A function proved with loop contracts must have exactly the loops the contract rules annotate: a loop the rules do
+    not know (changed code) would surface as failed assigns obligations of DFCC, which is an incomplete annotation and not
+    a violation -> OverlayError (exit 2)."""
+    lo, hi = function_span(text, fname)
+    body = re.sub(r"/\*.*?\*/|//[^\n]*", "", text[lo:hi], flags=re.S)
+    found = len(re.findall(r"\b(?:for|while)\s*\(", body))
+    found -= len(re.findall(r"\}\s*while\s*\(", body))  # do { } while: counted once (the `do`)
+    found += len(re.findall(r"\bdo\b", body))
+    if found != expected:
+        raise OverlayError("%s has %d loop(s), the loop contracts cover %d" % (fname, found, expected))
